@@ -30,6 +30,9 @@ type InSub struct {
 	Col      string
 	Table    string // other table, addressed as `<-Table`
 	OtherCol string
+	// CorrOuter / CorrInner, when set, correlate the subquery to the current
+	// row: ... WHERE CorrInner = `<-CorrOuter`
+	CorrOuter, CorrInner string
 }
 type Between struct {
 	Col    string
@@ -158,6 +161,14 @@ func RenderPred(p Pred, o RenderOpts) string {
 		return o.Col(t.Col) + " IN (" + strings.Join(items, ", ") + ")"
 	case InSub:
 		o.feat("in.subquery")
+		if t.CorrOuter != "" {
+			o.feat("in.subquery.correlated")
+			outer := t.CorrOuter
+			if o.Qualifier != "" {
+				outer = o.Qualifier + "." + outer // under an alias the outer row is {alias: row}
+			}
+			return o.Col(t.Col) + " IN (SELECT " + Ident(t.OtherCol, QBare) + " FROM `<-" + t.Table + "` WHERE " + t.CorrInner + " = `<-" + outer + "`)"
+		}
 		return o.Col(t.Col) + " IN (SELECT " + Ident(t.OtherCol, QBare) + " FROM `<-" + t.Table + "`)"
 	case Between:
 		if t.Neg {
@@ -222,6 +233,8 @@ type PredGen struct {
 	Force string
 	// NoLike etc. allow properties to restrict the grammar.
 	Disable map[string]bool
+	// Correlate allows IN-subqueries whose WHERE reaches back to the current row.
+	Correlate bool
 	// LikeNoSpecial restricts LIKE patterns to letters, digits, space, % and _
 	LikeNoSpecial bool
 }
@@ -323,7 +336,14 @@ func (g *PredGen) atom(kind string) Pred {
 		if len(oc) == 0 {
 			return g.atom("in")
 		}
-		return InSub{Col: c.Name, Table: g.Other.Name, OtherCol: Pick(r, oc).Name}
+		is := InSub{Col: c.Name, Table: g.Other.Name, OtherCol: Pick(r, oc).Name}
+		if g.Correlate && r.IntN(2) == 0 {
+			// correlate on a string column of both tables
+			if a, b := g.T.ColsOf(KStr), g.Other.ColsOf(KStr); len(a) > 0 && len(b) > 0 {
+				is.CorrOuter, is.CorrInner = Pick(r, a).Name, Pick(r, b).Name
+			}
+		}
+		return is
 	case "between", "notbetween":
 		c := Pick(r, sc)
 		return Between{Col: c.Name, Lo: g.constFor(c), Hi: g.constFor(c), Neg: kind == "notbetween"}
